@@ -1810,7 +1810,7 @@ class C13(Prop):
     # faulty constructs spread over several lines: (source, kind, line offset of the designated token)
     MULTI = [("{{ ob.nope9(\n  1,\n  2\n) }}", "eval", 0), ("{{ 1 +\n 'str' }}", "eval", 0), ("{{\n zz9 }}", "eval", 1), ("{{ zz9\n }}", "eval", 0),
              ("{{ ob\n.nope }}", "eval", 1), ("{{ ob[\n'nope'\n] }}", "eval", 1), ("{{ 1 /\n 0 }}", "eval", 0), ("{{ 'a'.nofunc(\n) }}", "eval", 0),
-             ("@if(\nzz9\n)x@end", "eval", 1), ("{{ [1,\n 2].nope9(\n3) }}", "eval", 1), ("{{ 'a\nb'.nope9() }}", "eval", 1),
+             ("@if(\nzz9\n)x@end", "eval", 1), ("{{ [1,\n 2].nope9(\n3) }}", "eval", 1), ("{{ 'a\nb'.nope9() }}", "eval", 1), ("{{ '\nb'.nope9() }}", "eval", 1), ("{{ \"\n\".nope9() }}", "eval", 1), ("{{ '\n' + zz9 }}", "eval", 1),
              ("{{ 1 +\n ) }}", "parse", 1), ("{{ 'x'.len(\n1,\n 2).nope9(\n) }}", "eval", 2), ("{{ true ?\n zz9 :\n 1 }}", "eval", 1),
              # an unexpected token on a later line than the token before it: the line is the unexpected token's
              ("{{ {a: 1\n b: 2} }}", "parse", 1), ("{{ [1, 2\n\n }}", "parse", 2), ("{{ 'a'.len(1\n }}", "parse", 1),
@@ -1821,9 +1821,32 @@ class C13(Prop):
              ("{{ [1,\r\n^] }}", "parse", 1), ("{{ 1 +\n  # }}", "parse", 1), ("{{ 1 *\n\n\n| 2 }}", "parse", 3), ("@each(v in\n`x`)y@end", "parse", 1)]
     DATA = "((%s (map (%s (int 1)))))" % (hx("ob"), hx("k"))
 
+    # random multi-line tokens whose line breaks sit at the edges of the token: directly after the opening quote / comment
+    # opener / '{{', directly before the closer, doubled, as CRLF, next to an escaped quote
+    def edge_filler(self, rng):
+        nl = lambda: rng.choice(["\n", "\n", "\r\n", "\n\n"])
+        mid = lambda: rng.choice(["", "a", " ", "ab c", "x" + nl() + "y"])
+        body = rng.choice([lambda: nl() + mid(), lambda: mid() + nl(), lambda: nl() + mid() + nl(), lambda: nl(), lambda: mid() + nl() + mid()])()
+        k = rng.randrange(6)
+        if k == 0:
+            q = rng.choice(["'", '"'])
+            return "{{ " + q + body + q + " }}" + rng.choice(["\n", ""])
+        if k == 1:
+            q = rng.choice(["'", '"'])
+            return "{{ " + q + body + "\\" + q + mid() + q + " }}\n"
+        if k == 2:
+            return "{{--" + body + "--}}" + rng.choice(["\n", ""])
+        if k == 3:
+            return "{{" + nl() + rng.choice(["1", "'s'", "[1," + nl() + "2]"]) + nl() + "}}" + rng.choice(["\n", ""])
+        if k == 4:
+            q = rng.choice(["'", '"'])
+            return "{{ v9 = " + q + body + q + "; [" + q + body + q + "," + nl() + q + q + "].len() }}\n"
+        return nl() + mid() + nl()
+
     def build(self, rng):
-        pre = [rng.choice(self.FILLERS) for _ in range(rng.choice([0, 1, 2, 3, 5, 8]))]
-        post = [rng.choice(self.FILLERS) for _ in range(rng.choice([0, 1, 2]))]
+        fill = lambda: self.edge_filler(rng) if rng.random() < 0.4 else rng.choice(self.FILLERS)
+        pre = [fill() for _ in range(rng.choice([0, 1, 2, 3, 5, 8]))]
+        post = [fill() for _ in range(rng.choice([0, 1, 2]))]
         off = 0
         if rng.random() < 0.3:
             fault, kind, off = rng.choice(self.MULTI)
